@@ -103,6 +103,7 @@ static void do_instantiate(int c, int parent, int mode = 0, int envsel = -1) {
     m.inst = inst; m.memobj = iglue_mem_object(inst); m.tabobj = iglue_tab_object(inst);
     if (!g_mem.count(m.memobj)) { MemModel mm; mm.pages = D_MEM_MIN; mm.b.assign((size_t)D_MEM_MIN * 65536, 0); g_mem[m.memobj] = mm; }
     if (!g_tab.count(m.tabobj)) { TabModel t; for (int i = 0; i < 8; i++) t.slot[i] = -1; g_tab[m.tabobj] = t; }
+    if (!D_MEM_IMPORTED && iglue_export_memory(inst) != m.memobj) V("C06/exports/memory-accessor-returns-another-object", "inst_memory(instance) is not the instance's memory");
     if (D_MEM_IMPORTED && m.memobj != env->mem) V("C06/imports/memory-not-bound-to-resolver-object", "instance uses another memory object than the resolver returned");
     if (D_TAB_IMPORTED && m.tabobj != env->tab) V("C06/imports/table-not-bound-to-resolver-object", "");
     for (size_t o = 0; o < g_inst.size(); o++) if (o != (size_t)c && g_inst[o].up) {
